@@ -238,8 +238,16 @@ func TestCheck(t *testing.T) {
 							return ""
 						}
 						cl, tr := clientops.NewClient(c)
+						hang := func(what string) {
+							viol = &seqx.Viol{Sig: "hang:" + o.Name, Msg: fmt.Sprintf("Client %s %s did not return within a minute of virtual time (client timeout 5 s); %d of %d response bytes had arrived", o.Name, what, k, L)}
+						}
+						r, err, hung := runOp(&o, cl)
+						if hung {
+							key = o.Name + ":hang"
+							hang("(the call whose response was cut)")
+							return
+						}
 						defer tr.CloseIdleConnections()
-						r, err := o.Run(context.Background(), cl)
 						key = o.Name + ":" + hx.ErrString(err)
 						if cutConn < 0 {
 							key += ":not-injected"
@@ -256,7 +264,12 @@ func TestCheck(t *testing.T) {
 						// the complete answer on a new connection (the transport may serve a cached refresh error first)
 						got := ""
 						for try := 0; try < 8; try++ {
-							r2, err2 := o.Run(context.Background(), cl)
+							r2, err2, hung2 := runOp(&o, cl)
+							if hung2 {
+								key += ":then-hang"
+								hang("(a later call, after the cut)")
+								return
+							}
 							got = r2 + "|" + hx.ErrString(err2)
 							if got == ref || (o.Key == protocol.Produce || o.Key == protocol.JoinGroup || o.Key == protocol.CreateTopics || o.Key == protocol.DeleteTopics) && err2 == nil {
 								got = ref
@@ -287,6 +300,22 @@ func TestCheck(t *testing.T) {
 		}
 	}
 	s.Finish()
+}
+
+// runOp runs a Client operation with a watchdog on the virtual clock: a call that does not return within a minute
+// (the Client's own timeout is 5 s) blocks beyond its deadline. The caller must then leave the bubble at once.
+func runOp(o *clientops.Op, cl *kafka.Client) (r string, err error, hung bool) {
+	done := make(chan struct{})
+	go func() {
+		r, err = o.Run(context.Background(), cl)
+		close(done)
+	}()
+	select {
+	case <-done:
+		return r, err, false
+	case <-time.After(time.Minute):
+		return "", nil, true
+	}
 }
 
 func firstLines(s string, n int) string {
